@@ -94,20 +94,24 @@ type Contract struct {
 	Reveals       []string
 	Preserves     []string
 	TypeFrame     bool
-	Constructor   bool // the function creates the cache object: exclusive access until it returns
+	Constructor   bool     // the function creates the cache object: exclusive access until it returns
+	Invariants    []Clause // required at entry, ensured at exit; preserved by functions that only apply this one
+	invDone       bool
+	Applies       string // name of the function-valued parameter this function calls (and nothing else writes its invariant's footprint)
 	TypeFramePkgs []string
 	GhostVars     []GhostVar
 }
 
 type ContractSet struct {
-	Funcs     map[string]*Contract // key: pkgpath + "." + Key  (extern: "strings.SplitN")
-	Preds     map[string]*PredDef  // key: name (global namespace; package-qualified lookup first)
-	Guards    []GuardDecl
-	Files     []string
-	Lemmas    []*Lemma
-	FuncTypes map[string]*Contract
-	UFuns     []UFunDecl
-	Axioms    []AxiomDecl
+	Funcs        map[string]*Contract // key: pkgpath + "." + Key  (extern: "strings.SplitN")
+	Preds        map[string]*PredDef  // key: name (global namespace; package-qualified lookup first)
+	Guards       []GuardDecl
+	Files        []string
+	Lemmas       []*Lemma
+	FuncTypes    map[string]*Contract
+	GhostGlobals []GhostVar
+	UFuns        []UFunDecl
+	Axioms       []AxiomDecl
 }
 
 type UFunDecl struct {
@@ -205,7 +209,7 @@ func (cs *ContractSet) loadContractFile(path, pkgPath string) error {
 			no   int
 		}{t, i + 1})
 	}
-	keywords := []string{"pred ", "abstract pred ", "func ", "extern func ", "functype ", "requires ", "ensures", "logical ", "loop ", "modifies", "pure", "assert ", "ghost ", "when ", "guarded ", "lemma ", "hint ", "by ", "use ", "trusted", "acquires ", "fn ", "ufun ", "axiom ", "deterministic", "frametags ", "opaque pred ", "reveal ", "preserves ", "ghostvar ", "typeframe", "typeframe ", "constructor"}
+	keywords := []string{"pred ", "abstract pred ", "func ", "extern func ", "functype ", "requires ", "ensures", "logical ", "loop ", "modifies", "pure", "assert ", "ghost ", "when ", "guarded ", "lemma ", "hint ", "by ", "use ", "trusted", "acquires ", "fn ", "ufun ", "axiom ", "deterministic", "frametags ", "opaque pred ", "reveal ", "preserves ", "ghostvar ", "typeframe", "typeframe ", "constructor", "ghostglobal ", "ghostwrites ", "invariant ", "applies "}
 	startsKeyword := func(s string) bool {
 		s = strings.TrimSpace(s)
 		for _, k := range keywords {
@@ -298,6 +302,10 @@ func (cs *ContractSet) loadContractFile(path, pkgPath string) error {
 				return fmt.Errorf("%s:%d: %v", path, it.no, err)
 			}
 			c := &Contract{Key: name, Pkg: pkgPath, Extern: extern, Loops: map[int]*LoopContract{}, File: filepath.Base(path), Line: it.no, Uses: map[string]string{}}
+			if strings.Contains(name, "$") && strings.HasPrefix(name, "(") && len(params) > 0 {
+				// a closure of a method: the receiver in the header only names the parent, it is not a parameter
+				params = params[1:]
+			}
 			for _, p := range params {
 				c.Params = append(c.Params, p.Name)
 			}
@@ -321,6 +329,13 @@ func (cs *ContractSet) loadContractFile(path, pkgPath string) error {
 			curLemma = &Lemma{Name: name, Params: params, Pkg: pkgPath, File: filepath.Base(path), Line: it.no}
 			cs.Lemmas = append(cs.Lemmas, curLemma)
 			cur = nil
+		case strings.HasPrefix(t, "ghostglobal "):
+			f := strings.Fields(strings.TrimPrefix(t, "ghostglobal "))
+			if len(f) < 2 {
+				return fmt.Errorf("%s:%d: ghostglobal name sort", path, it.no)
+			}
+			cs.GhostGlobals = append(cs.GhostGlobals, GhostVar{Name: f[0], Sort: strings.Join(f[1:], " ")})
+			cur, curLemma = nil, nil
 		case strings.HasPrefix(t, "guarded "):
 			// guarded Cache.{a,b,c} by Cache.Mutex
 			m := regexp.MustCompile(`^guarded\s+(\w+)\.\{([^}]*)\}\s+by\s+(.+)$`).FindStringSubmatch(t)
@@ -441,6 +456,20 @@ func (cs *ContractSet) loadContractFile(path, pkgPath string) error {
 				cur.Deterministic = true
 			case t == "constructor":
 				cur.Constructor = true
+			case strings.HasPrefix(t, "ghostwrites "):
+				for _, x := range strings.Split(strings.TrimPrefix(t, "ghostwrites "), ",") {
+					cur.GhostWrites = append(cur.GhostWrites, strings.TrimSpace(x))
+				}
+			case strings.HasPrefix(t, "invariant "):
+				// invariant P : P is required and ensured; a function that only applies this function
+				// (see `applies`) preserves it
+				c, err := mkClause(strings.TrimPrefix(t, "invariant "), nil)
+				if err != nil {
+					return err
+				}
+				cur.Invariants = append(cur.Invariants, c)
+			case strings.HasPrefix(t, "applies "):
+				cur.Applies = strings.TrimSpace(strings.TrimPrefix(t, "applies "))
 			case t == "typeframe" || strings.HasPrefix(t, "typeframe "):
 				cur.TypeFrame = true
 				for _, x := range strings.Split(strings.TrimSpace(strings.TrimPrefix(t, "typeframe")), ",") {
@@ -535,7 +564,28 @@ func (cs *ContractSet) loadContractFile(path, pkgPath string) error {
 			}
 		}
 	}
+	for _, c := range cs.Funcs {
+		cs.finishContract(c)
+	}
+	for _, c := range cs.FuncTypes {
+		cs.finishContract(c)
+	}
 	return nil
+}
+
+// finishContract: an `invariant P` clause is both a precondition and a postcondition.
+func (cs *ContractSet) finishContract(c *Contract) {
+	if c.invDone {
+		return
+	}
+	c.invDone = true
+	for _, inv := range c.Invariants {
+		r := inv
+		c.Requires = append(c.Requires, r)
+		e := inv
+		e.Text = "invariant: " + inv.Text
+		c.Ensures = append(c.Ensures, e)
+	}
 }
 
 func stripComment(s string) string {
